@@ -87,6 +87,17 @@ Section Native.
     forall ops s, history_A s ops = history_B s ops.
   Proof. exact (twin_histories_agree nstate native_step q_rewards q_balance q_delegated_bonded q_bonded chain_id typed_hash recover). Qed.
 
+  (* ... and the receipts' Delegate / Undelegate / WithdrawReward logs along chain A's history are, step by step and in
+     order, the image (C11_logs_match_events) of the module events of chain B's native submissions: nothing more, nothing
+     less, for calls that fail as well (no logs, no events) *)
+  Theorem C11_twin_logs_match_events :
+    (forall s m s' evs, native_step s m = Some (s', evs) -> existsb counted evs = true) ->
+    forall ops s,
+    trace nstate (logs_A nstate native_step q_rewards q_balance q_delegated_bonded q_bonded chain_id typed_hash recover) stepA s ops =
+    trace nstate (logs_B nstate native_step q_rewards q_balance q_delegated_bonded q_bonded chain_id typed_hash recover)
+          (step_B nstate native_step q_rewards q_balance q_delegated_bonded q_bonded chain_id typed_hash recover) s ops.
+  Proof. exact (twin_logs_agree nstate native_step q_rewards q_balance q_delegated_bonded q_bonded chain_id typed_hash recover). Qed.
+
   (* THIRD PARTIES.  For any per-account observation that the native message servers change for nobody but the
      message's own delegator (balance, delegations, unbonding and redelegation entries: checked by the driver), a
      precompile call changes it for nobody but the immediate caller — per call and at every position of a history. *)
@@ -200,6 +211,7 @@ Print Assumptions C11_history_acts_for_caller.
 Print Assumptions C11_call_is_native_submission.
 Print Assumptions C11_equiv_native.
 Print Assumptions C11_twin_histories_agree.
+Print Assumptions C11_twin_logs_match_events.
 Print Assumptions C11_third_parties_untouched.
 Print Assumptions C11_direct_calls_are_native.
 Print Assumptions C11_nonpositive_amount_rejected.
